@@ -57,6 +57,11 @@ def _seed_defs():
     add("hq3-frag-mixed", [B.seq_header(hq3), B.picture(hq3, 4)] + B.fragmented_picture(hq3, 5, 2) + [B.padding(b"x"), B.end_of_sequence()])
     add("empty-seq", [B.seq_header(hq3), B.end_of_sequence()])
     add("420-fields-ld", B.simple_stream(ld1.but(color_diff_format_index=2, frame_width=4, frame_height=8, picture_coding_mode=1, dwt_depth=1), 2))
+    # header-only streams at the specialised levels: their field mutations reach the level-table
+    # rejections (ValueNotAllowedInLevel on profile / major_version / base format ...)
+    for lv, bvf, prof, mv in ((64, 13, B.PROFILE_LD, 2), (65, 9, B.PROFILE_LD, 2), (66, 17, B.PROFILE_HQ, 2), (3, 14, B.PROFILE_HQ, 2)):
+        f = T(level=lv, base_video_format=bvf, profile=prof, major_version=mv, frame_width=None, color_diff_format_index=None, clean_area=None)
+        add("level%d-header-only" % lv, [B.seq_header(f), B.end_of_sequence()], True)
     return seeds
 
 
